@@ -790,8 +790,8 @@ func main() {
 	for k := 0; k < hj; k++ {
 		jobs = append(jobs, mon.Job{Name: "helpers", Input: helperJob{R.N(150, 2000)}})
 	}
-	for k := 0; k < R.N(4, 40); k++ {
-		jobs = append(jobs, mon.Job{Name: "net", Input: netJob{Index: k, N: R.N(75, 250)}})
+	for k := 0; k < R.N(8, 48); k++ {
+		jobs = append(jobs, mon.Job{Name: "net", Input: netJob{Index: k, N: R.N(140, 420)}})
 	}
 	R.Extra("tlb_types", nTypes)
 	R.Extra("tl_types", nTL)
